@@ -192,6 +192,7 @@ type c14input struct {
 	path string // JSON path of the mutated member
 	kind string // mutation kind
 	data []byte
+	light bool  // only the first stages (see runPipelineLight)
 }
 
 var deepArr = strings.Repeat("[", 10050) + strings.Repeat("]", 10050)
@@ -562,6 +563,35 @@ func parseEnv(data []byte, outs *[]stageOut, record bool) *gobl.Envelope {
 	return env
 }
 
+// runPipelineLight: parse, validation as parsed, calculation and validation only (the large synthetic documents: the
+// later stages cost most of the time and see the same members).
+func runPipelineLight(data []byte) []stageOut {
+	var outs []stageOut
+	guard("validate-raw", &outs, func() error {
+		obj, err := gobl.Parse(data)
+		if err != nil {
+			return nil
+		}
+		if v, ok := obj.(interface{ Validate() error }); ok {
+			_ = v.Validate()
+		}
+		return nil
+	})
+	env := parseEnv(data, &outs, true)
+	if env == nil {
+		return outs
+	}
+	guard("validate", &outs, func() error { return env.Validate() })
+	guard("marshal", &outs, func() error {
+		_, err := json.Marshal(env)
+		if err != nil {
+			return gobl.ErrMarshal.WithCause(err)
+		}
+		return nil
+	})
+	return outs
+}
+
 func runPipeline(data []byte) []stageOut {
 	var outs []stageOut
 	// canonical JSON of the raw bytes (c14n/c14n.go is part of the parser surface)
@@ -716,7 +746,12 @@ func c14work(args []string) int {
 		}
 		c14cur.Store(in)
 		c14started.Store(time.Now().UnixNano())
-		outs := runPipeline(in.data)
+		var outs []stageOut
+		if in.light {
+			outs = runPipelineLight(in.data)
+		} else {
+			outs = runPipeline(in.data)
+		}
 		c14started.Store(0)
 		processed++
 		kinds[in.kind]++
@@ -790,8 +825,16 @@ func c14work(args []string) int {
 				}
 				// a whole top-level member missing or null is always tried (a validator that assumes its presence)
 				top := strings.Count(path, "/") == 1 && (kind == "delete" || kind == "null") && nrandom > 0
-				if n > skip && n%nshards == shard && (top || (n/nshards)%rs == (offset+int(seed))%rs) {
-					process(&c14input{n: n, doc: rel, path: path, kind: kind, data: mk()})
+				// every member of the four main documents absent or null, at any depth, through the light pipeline
+				main4 := !strings.Contains(rel, "+") && (strings.Contains(rel, "bill-invoice") || strings.Contains(rel, "bill-order") ||
+					strings.Contains(rel, "bill-delivery.") || strings.Contains(rel, "bill-payment."))
+				deep := main4 && (kind == "delete" || kind == "null" || kind == "listnull") && nrandom > 0
+				if n > skip && n%nshards == shard {
+					if top || (n/nshards)%rs == (offset+int(seed))%rs {
+						process(&c14input{n: n, doc: rel, path: path, kind: kind, data: mk()})
+					} else if deep {
+						process(&c14input{n: n, doc: rel, path: path, kind: kind, data: mk(), light: true})
+					}
 				}
 				return
 			}
